@@ -426,6 +426,7 @@ def _methods(uni: qgen.Universe, extra=()) -> str:
     cpp = {"int": "int", "bool": "bool", "float": "float", "vec_double": "std::vector<double>", "vec_int": "std::vector<int>"}
     ms += [f"{cpp[t]} {m}() const;" for m, t in uni.declared.items()]
     ms += [f"double {m}() const;" for m in extra]
+    ms += ["MyNS::Color color() const;"]   # qgen.Universe.metadata: return type MyNS::Color, stored in the tree as int
     ms += ["template <class T> T getAttribute(const std::string&) const;", "bool isNonnull() const;"]
     return " ".join(ms)
 
@@ -433,7 +434,7 @@ def _methods(uni: qgen.Universe, extra=()) -> str:
 def standin_header(backend: str, uni: qgen.Universe) -> str:
     h = ["#include <vector>", "#include <numeric>", "#include <cmath>", "#include <stdexcept>", "#include <string>",
          "struct TTree { TTree(const char*, const char*); template <class T> int Branch(const char*, T*); int Fill(); };",
-         "struct TVector2 { static double Phi_mpi_pi(double); };"]
+         "struct TVector2 { static double Phi_mpi_pi(double); };", "namespace MyNS { enum Color { Red, Blue, Green }; }"]
     by_ns: Dict[str, List[str]] = collections.OrderedDict()
     if backend == "atlas":
         for name, (ct, et) in list(uni.colls.items()) + list(uni.singletons.items()):
